@@ -56,5 +56,8 @@ def install(world):
             ("len", "length(result) == n", ["C19"]),
             ("cycle", "forall(0, n, lambda i: result[i] == colmajor(trough_wells)[i % length(colmajor(trough_wells))])", ["C19"]),
         ],
-        native={"imports": ["from robotools.utils import get_trough_wells"], "call": "get_trough_wells(n, trough_wells)"},
+        # the native evaluation calls twice and spoils the first result in between: a result that shares state with a later
+        # call (memoised list) fails the same clauses
+        native={"imports": ["from robotools.utils import get_trough_wells"],
+                "call": "(lambda first: (first.append('spoiled'), first.reverse(), get_trough_wells(n, trough_wells))[2])(get_trough_wells(n, trough_wells))"},
     ))
